@@ -52,7 +52,7 @@ PROPS = {
         "level": "exploration",
         "units": [
             U("c04", "TestBalloonVsRef", T(40, 16, 300), T(40, 64, 900)),
-            U("c04", "TestTreesVsRef", T(250, 8, 300), T(400, 64, 900)),
+            U("c04", "TestTreesVsRef", T(60, 16, 300), T(60, 96, 900)),
         ],
     },
     "C05": {
